@@ -38,3 +38,34 @@ Proof.
   pose proof (cells_below_total cpos rows cols cpos_len cpos_lt Hcols _ _ Hrm) as Bm.
   intros r j Hr Hj. specialize (Bm r j Hr Hj). lia.
 Qed.
+
+(* C03 on the Redis model, remaining clauses: exact while one distinct element was updated, and 0 on
+   an empty sketch -- the Redis count is the in-memory count (refinement), which is exact there *)
+Theorem redis_count_exact_single (cpos : N -> N -> bytes -> list N) rows cols
+  (cpos_len : forall x, length (cpos rows cols x) = N.to_nat rows)
+  (cpos_lt : forall x p, In p (cpos rows cols x) -> p < cols) s key meta h0 s1 m0 hist x :
+  rcms_new s rows cols key meta = (Ok h0, s1) -> cms_new rows cols = Ok m0 -> total hist < B53 ->
+  only_elem hist x ->
+  exists s' h', rrun cpos s1 h0 hist = (Ok h', s') /\ rcms_count cpos s' h' x = Ok (true_count hist x).
+Proof.
+  intros Hn Hm Ht Ho.
+  destruct (redis_count_bounds_new cpos rows cols cpos_len cpos_lt s key meta h0 s1 m0 hist x Hn Hm Ht)
+    as (s' & h' & Hrun & Hcnt & _).
+  exists s', h'. split; [exact Hrun|]. rewrite Hcnt. f_equal.
+  assert (H53 : B53 < two64) by (vm_compute; reflexivity).
+  apply (api_exact_single cpos rows cols cpos_len cpos_lt m0 hist x Hm ltac:(lia) Ho).
+Qed.
+
+Theorem redis_count_empty (cpos : N -> N -> bytes -> list N) rows cols
+  (cpos_len : forall x, length (cpos rows cols x) = N.to_nat rows)
+  (cpos_lt : forall x p, In p (cpos rows cols x) -> p < cols) s key meta h0 s1 m0 x :
+  rcms_new s rows cols key meta = (Ok h0, s1) -> cms_new rows cols = Ok m0 ->
+  rcms_count cpos s1 h0 x = Ok 0.
+Proof.
+  intros Hn Hm.
+  assert (Ht : total [] < B53) by (vm_compute; reflexivity).
+  destruct (redis_count_bounds_new cpos rows cols cpos_len cpos_lt s key meta h0 s1 m0 [] x Hn Hm Ht)
+    as (s' & h' & Hrun & Hcnt & _).
+  cbn [rrun] in Hrun. injection Hrun as <- <-. rewrite Hcnt. f_equal.
+  apply (api_empty cpos rows cols cpos_len cpos_lt m0 x Hm).
+Qed.
